@@ -685,6 +685,9 @@ pub struct Phase {
     /// number of fast redirect hops (each answered after hop_delay_ms) before the stall
     pub hops: usize,
     pub hop_delay_ms: u64,
+    /// the URL is https://127.0.0.1:port/ (no proxy): the peer never answers the ClientHello
+    #[serde(default)]
+    pub direct_tls: bool,
 }
 
 fn phases() -> Vec<Phase> {
@@ -704,17 +707,23 @@ fn phases() -> Vec<Phase> {
     ];
     for (name, before) in &stalls {
         for drip in [false, true] {
-            v.push(Phase { name: format!("{name}:{}", if drip { "drip" } else { "silent" }), before: before.clone(), drip, timeout_ms: Some(600), read_timeout_ms: 20_000, upload: false, via_connect: false, hops: 0, hop_delay_ms: 0 });
+            v.push(Phase { name: format!("{name}:{}", if drip { "drip" } else { "silent" }), before: before.clone(), drip, timeout_ms: Some(600), read_timeout_ms: 20_000, upload: false, via_connect: false, hops: 0, hop_delay_ms: 0, direct_tls: false });
         }
-        v.push(Phase { name: format!("{name}:read-timeout-only"), before: before.clone(), drip: false, timeout_ms: None, read_timeout_ms: 300, upload: false, via_connect: false, hops: 0, hop_delay_ms: 0 });
+        v.push(Phase { name: format!("{name}:read-timeout-only"), before: before.clone(), drip: false, timeout_ms: None, read_timeout_ms: 300, upload: false, via_connect: false, hops: 0, hop_delay_ms: 0, direct_tls: false });
     }
-    v.push(Phase { name: "upload-not-read".into(), before: vec![], drip: false, timeout_ms: Some(600), read_timeout_ms: 20_000, upload: true, via_connect: false, hops: 0, hop_delay_ms: 0 });
-    v.push(Phase { name: "connect-no-reply".into(), before: vec![], drip: false, timeout_ms: Some(600), read_timeout_ms: 20_000, upload: false, via_connect: true, hops: 0, hop_delay_ms: 0 });
-    v.push(Phase { name: "connect-mid-head".into(), before: b"HTTP/1.1 200 Connec".to_vec(), drip: false, timeout_ms: Some(600), read_timeout_ms: 20_000, upload: false, via_connect: true, hops: 0, hop_delay_ms: 0 });
-    v.push(Phase { name: "connect-mid-head:drip".into(), before: b"HTTP/1.1 200 Connec".to_vec(), drip: true, timeout_ms: Some(600), read_timeout_ms: 20_000, upload: false, via_connect: true, hops: 0, hop_delay_ms: 0 });
-    v.push(Phase { name: "connect-refusal-body:drip".into(), before: b"HTTP/1.1 403 No\r\n\r\nxx".to_vec(), drip: true, timeout_ms: Some(600), read_timeout_ms: 20_000, upload: false, via_connect: true, hops: 0, hop_delay_ms: 0 });
+    v.push(Phase { name: "upload-not-read".into(), before: vec![], drip: false, timeout_ms: Some(600), read_timeout_ms: 20_000, upload: true, via_connect: false, hops: 0, hop_delay_ms: 0, direct_tls: false });
+    v.push(Phase { name: "connect-no-reply".into(), before: vec![], drip: false, timeout_ms: Some(600), read_timeout_ms: 20_000, upload: false, via_connect: true, hops: 0, hop_delay_ms: 0, direct_tls: false });
+    v.push(Phase { name: "connect-mid-head".into(), before: b"HTTP/1.1 200 Connec".to_vec(), drip: false, timeout_ms: Some(600), read_timeout_ms: 20_000, upload: false, via_connect: true, hops: 0, hop_delay_ms: 0, direct_tls: false });
+    v.push(Phase { name: "connect-mid-head:drip".into(), before: b"HTTP/1.1 200 Connec".to_vec(), drip: true, timeout_ms: Some(600), read_timeout_ms: 20_000, upload: false, via_connect: true, hops: 0, hop_delay_ms: 0, direct_tls: false });
+    // the proxy agrees, then nothing: the TLS handshake inside the tunnel stalls
+    v.push(Phase { name: "tunnel-handshake-no-reply".into(), before: b"HTTP/1.1 200 Connection established\r\n\r\n".to_vec(), drip: false, timeout_ms: Some(600), read_timeout_ms: 20_000, upload: false, via_connect: true, hops: 0, hop_delay_ms: 0, direct_tls: false });
+    v.push(Phase { name: "tunnel-handshake-no-reply:read-timeout-only".into(), before: b"HTTP/1.1 200 Connection established\r\n\r\n".to_vec(), drip: false, timeout_ms: None, read_timeout_ms: 300, upload: false, via_connect: true, hops: 0, hop_delay_ms: 0, direct_tls: false });
+    v.push(Phase { name: "tls-handshake-no-reply".into(), before: vec![], drip: false, timeout_ms: Some(600), read_timeout_ms: 20_000, upload: false, via_connect: false, hops: 0, hop_delay_ms: 0, direct_tls: true });
+    v.push(Phase { name: "tls-handshake-no-reply:read-timeout-only".into(), before: vec![], drip: false, timeout_ms: None, read_timeout_ms: 300, upload: false, via_connect: false, hops: 0, hop_delay_ms: 0, direct_tls: true });
+    v.push(Phase { name: "tls-handshake-garbage-drip".into(), before: vec![0x16, 0x03, 0x03, 0x40, 0x00], drip: true, timeout_ms: Some(600), read_timeout_ms: 20_000, upload: false, via_connect: false, hops: 0, hop_delay_ms: 0, direct_tls: true });
+    v.push(Phase { name: "connect-refusal-body:drip".into(), before: b"HTTP/1.1 403 No\r\n\r\nxx".to_vec(), drip: true, timeout_ms: Some(600), read_timeout_ms: 20_000, upload: false, via_connect: true, hops: 0, hop_delay_ms: 0, direct_tls: false });
     // each hop answers well within T, together they take 8 x T: only a deadline that spans the hops ends this in time
-    v.push(Phase { name: "redirect-chain-slow-hops".into(), before: vec![], drip: false, timeout_ms: Some(600), read_timeout_ms: 20_000, upload: false, via_connect: false, hops: 12, hop_delay_ms: 400 });
+    v.push(Phase { name: "redirect-chain-slow-hops".into(), before: vec![], drip: false, timeout_ms: Some(600), read_timeout_ms: 20_000, upload: false, via_connect: false, hops: 12, hop_delay_ms: 400, direct_tls: false });
     v
 }
 
@@ -762,7 +771,13 @@ fn run_phase(p: &Phase) -> (Duration, String, Option<(String, String)>) {
     let t0 = Instant::now();
     let p3 = p.clone();
     let res = guarded(move || -> Result<String, String> {
-        let url = if p3.via_connect { "https://origin.invalid/x".to_string() } else { format!("http://127.0.0.1:{port}/x") };
+        let url = if p3.via_connect {
+            "https://origin.invalid/x".to_string()
+        } else if p3.direct_tls {
+            format!("https://127.0.0.1:{port}/x")
+        } else {
+            format!("http://127.0.0.1:{port}/x")
+        };
         let mut rb = if p3.upload { attohttpc::post(&url) } else { attohttpc::get(&url) };
         rb = rb.read_timeout(Duration::from_millis(p3.read_timeout_ms)).connect_timeout(Duration::from_secs(5)).max_redirections(40);
         if let Some(t) = p3.timeout_ms {
